@@ -963,7 +963,12 @@ func (x *Explorer) meta(k string, e ast.Expr) {
 			}
 			if fv := FieldOf(info, e); fv != nil {
 				if !x.P.StableField(info, e) {
-					m.stable = false
+					// a field of a local struct *value* (e.g. a reflect.StructField copy) cannot be changed by a callee
+					if tv, ok := info.Types[e.X]; !ok || tv.Type == nil {
+						m.stable = false
+					} else if _, isStruct := tv.Type.Underlying().(*types.Struct); !isStruct {
+						m.stable = false
+					}
 				}
 			}
 			walk(e.X)
